@@ -132,6 +132,14 @@ theorem specRun_filter_recoverable (m : Mode) (hm : m ≠ .errorstop) (evs : Lis
     | ignRecoverable => simp [specRun, ih']
     | spurious => simp [specRun, ih']
 
+theorem digits_pos (n : Nat) : 1 ≤ digits n := by
+  unfold digits
+  split <;> omega
+
+theorem digits_mono_step (n : Nat) (h : 10 ≤ n) : digits n = 1 + digits (n / 10) := by
+  rw [digits]
+  rw [if_neg (by omega)]
+
 theorem ifcaseLoopGe_neg (k : Nat) : ∀ (c : Int) (j : Nat), c < 0 → ifcaseLoopGe c j k = none := by
   induction k with
   | zero => intro c j _; simp [ifcaseLoopGe]
